@@ -16,8 +16,10 @@ TRUSTED = {
     'A7': 'A7 LineNumbers::{new,get} (RefCell + recursion) are external_body: assumed to terminate and return some usize',
     'A8': 'A8 termination of display_width\'s loop: the proved invariant shows remaining() strictly shrinks, but Verus forbids prophetic values in '
           'decreases (exec_allows_no_decreases_clause on that one function)',
-    'A9': 'A9 tiling contracts of the closure-based callees: word ++ whitespace concatenate to the line. For the ASCII separator this is PROVED (unit U13, '
-          'find_words_ascii_space after closure conversion R16); for split_words it is PROVED (unit U14) relative to the assumed shape of WordSplitter::split_points, for break_apart it is PROVED (unit U15), for the Unicode separator it is PROVED (unit U20) relative to the assumed shape A13 of unicode_linebreak::linebreaks; U11 restates these contracts as assumptions in Verus and checked exhaustively within scope by BEC (C11/C12 contracts)',
+    'A9': 'A9 restated callee contracts: Verus runs one file per unit, so a callee proved in another unit appears in the caller\'s unit as an external_body function whose '
+          'contract is restated (table and audit in DESIGN.md §2.8): the tiling and cached-width contracts of find_words (proved in U13 / U20), split_words (U14), '
+          'break_words (U6) and break_apart (U15), Word::from (U6), the partition contract of the line breakers (U1, U2, U17), split_points (U16), display_width / strip / '
+          'the ANSI skipper (U3), wrap\'s shortcut (U11). Each is also an executable BEC contract on the real callee (C11/C12/C06/C10 contracts)',
     'A10': 'A10 (discharged) char-boundary safety of &line[idx..idx+len] in wrap\'s reassembly is now PROVED in U11 (the seam between valid UTF-8 pieces is a char boundary), '
            'and String::from_utf8(..).unwrap() in fill_inplace is proved not to fail in U10 (overwriting an ASCII byte by an ASCII byte keeps UTF-8 validity)',
     'A11': 'A11 stated preconditions: wrap_optimal_fit: fragments.len() < usize::MAX; wrap_columns: columns <= isize::MAX and '
@@ -29,7 +31,7 @@ TRUSTED = {
     'A14': 'A14 wrap_optimal_fit returns Ok for usize-valued line widths and penalties ("the computation cannot overflow when the line widths are restricted to usize"): '
            'assumed in U17 (floats are uninterpreted), checked within scope by BEC C04 (no overflow error for any usize-valued input)',
     'A15': 'A15 a user-supplied WrapAlgorithm::Custom function returns an ordered partition of the words; a WordSplitter::Custom function returns strictly increasing '
-           'char boundaries inside the word; a WordSeparator::Custom function returns words that tile the line (their authors\' obligations)',
+           'char boundaries inside the word; a WordSeparator::Custom function returns words that tile the line with cached widths equal to their display widths (their authors\' obligations)',
     'R16': 'R16 closure conversion: the body of an `iter::from_fn(move || …)` closure is verified as the `next` method of a struct holding the captured variables '
            '(same tokens, captures prefixed by `self.`); that `collect()` calls `next` until None and keeps the items in order is std behaviour (A4)',
     'R15': 'R15 generic parameters are verified at one instance: Opt = Options<\'a> (Into is the identity there), I = Vec<Word<\'a>>',
@@ -146,7 +148,7 @@ PROPS = {
                        '"the UAX #14 opportunities", with only its shape assumed) and the std iterator behaviour of from_fn/filter/find/collect (A4, R16).',
     },
     'C12': {
-        'units': ['U6', 'U14', 'U15', 'U16'], 'level': 'other', 'trusted': ['A3', 'A4', 'A9', 'A12', 'R15'],
+        'units': ['U6', 'U14', 'U15', 'U16'], 'level': 'proof', 'trusted': ['A3', 'A4', 'A9', 'A12', 'R15'],
         'proved_part': 'Verus: break_words (at I = Vec) is lossless and the identity when no word is wider than the limit. split_words (U14, both closures after closure '
                        'conversion R16), for every word and every list of split points that is strictly increasing and made of char boundaries inside the word: the pieces are '
                        'word[p_(k-1)..p_k], they concatenate to the word, a piece followed by another gets "-" exactly when the text before the cut does not end in \'-\', the last '
@@ -157,9 +159,10 @@ PROPS = {
                        ' WordSplitter::split_points (U16): the hyphen splitter returns exactly the positions directly after each \'-\' with an alphanumeric character on both '
                        'sides, increasing, char boundaries strictly inside the word (the shape U14 assumes); NoHyphenation returns none.',
         'bounded_part': 'BEC: every clause again by execution on the real functions (incl. a custom hyphen-inserting splitter).',
-        'explanation': 'Proved for all inputs (level stays "other" only because the units are linked by restated contracts, not one monolithic proof): dispatch, split points of the '
-                       'built-in splitters, splitting and force-breaking (the closures via conversion R16), relative to the std contracts of char_indices / match_indices / slicing; '
-                       'custom splitters are opaque (their split points are assumed to be increasing char boundaries inside the word).',
+        'explanation': 'Proof: every clause of the statement is a discharged Verus obligation on the extracted functions — split points of the built-in splitters (U16), '
+                       'splitting (U14) and force-breaking (U15) through closure conversion R16, each with a collecting wrapper that lifts the per-item contract to the whole '
+                       'stream, and the break_words dispatch (U6) — relative to the std contracts of char_indices / match_indices / slicing (A4); units are linked by restated '
+                       'contracts audited in DESIGN.md §2.8 (A9); custom splitters are opaque (A15).',
     },
     'C13': {
         'units': ['U3', 'U15', 'U20'], 'level': 'other', 'trusted': ['A2', 'A4', 'A8', 'A12', 'R16'],
